@@ -171,3 +171,34 @@ Fixpoint newline_indents (es : list sevent) : list sq :=
   | SENewline q :: r => q :: newline_indents r
   | SEText _ :: r => newline_indents r
   end.
+
+(* For the oracle only (no theorem depends on it): for every line break `best_sym` emits, in the same order,
+   whether the indentation it lands on was set by an `align` (a column taken from the text, as the block comment
+   layout does) rather than by nests alone.  The traversal is that of `best_sym`. *)
+Fixpoint newline_aligned (fuel : nat) (bc : list (bool * mode * sdoc)) : list bool :=
+  match fuel with
+  | O => []
+  | S fuel' =>
+      match bc with
+      | [] => []
+      | (al, m, d) :: bc' =>
+          match d with
+          | SNil | SText _ | STextW _ _ => newline_aligned fuel' bc'
+          | SAppend a b => newline_aligned fuel' ((al, m, a) :: (al, m, b) :: bc')
+          | SFlatAlt b f => newline_aligned fuel' ((al, m, match m with MBreak => b | MFlat => f end) :: bc')
+          | SGroup x =>
+              match m with
+              | MFlat => newline_aligned fuel' ((al, MFlat, x) :: bc')
+              | MBreak => newline_aligned fuel' ((al, (if sflat_has_line x then MBreak else MFlat), x) :: bc')
+              end
+          | SNest _ _ x => newline_aligned fuel' ((al, m, x) :: bc')
+          | SHardline =>
+              let al' := match bc' with (a, _, _) :: _ => a | [] => al end in
+              al' :: newline_aligned fuel' bc'
+          | SAlign x => newline_aligned fuel' ((true, m, x) :: bc')
+          end
+      end
+  end.
+
+Definition render_sym_aligned (d : sdoc) : list bool :=
+  newline_aligned (S (2 * sdoc_size d)) [(false, MBreak, d)].
